@@ -12,7 +12,7 @@ deletion), and for each one:
 Prints one line per mutant: KILLED-BY-SUITE / DETECTED <check> / SURVIVED / INCONCLUSIVE, and keeps the
 survivors' diffs under the output directory for triage (survivors are equivalent mutants or gaps).
 
-usage: tools/mutate.py <out dir> [--files f1,f2] [--max N] [--stride K] [--offset J]
+usage: tools/mutate.py <out dir> [--files f1,f2] [--max N] [--stride K] [--offset J] [--ops 1|2] [--list]
 """
 import os, re, shutil, subprocess, sys, tempfile, json, hashlib
 
@@ -29,6 +29,74 @@ REPL = [
     (r"&&", "||"), (r"\|\|", "&&"), (r"\btrue\b", "false"), (r"\bfalse\b", "true"),
     (r"\+ 1\b", "+ 2"), (r"- 1\b", "- 0"), (r"\b0x7f\b", "0x7e"), (r"\b255\b", "256"), (r"\b65535\b", "65536"), (r"\b8\b", "9"), (r"\b4\b", "5"),
 ]
+
+# second operator set (--ops 2): whole-condition negation, continue/break, compound assignment sign,
+# slice bound shifts, dropped negation, length off-by-one, further small constants, character and
+# string literal replacement
+REPL2 = [
+    (r"\bcontinue\b", "break"), (r"\bbreak\b", "continue"), (r"\+=", "-="), (r"-=", "+="),
+    (r"\[(\w+):\]", r"[\1+1:]"), (r"\[:(\w+)\]", r"[:\1-1]"), (r"!(?=[A-Za-z_(])", ""),
+    (r"\blen\((\w+(?:\.\w+)*)\)", r"(len(\1)-1)"), (r"\blen\((\w+(?:\.\w+)*)\)", r"(len(\1)+1)"),
+    (r"(?<![\w.])0(?![\w.])", "1"), (r"(?<![\w.+\- ])1(?![\w.])", "2"), (r"(?<![\w.])2(?![\w.])", "3"), (r"(?<![\w.])3(?![\w.])", "4"),
+    (r"(?<![\w.])10(?![\w.])", "9"), (r"(?<![\w.])16(?![\w.])", "15"), (r"(?<![\w.])0x80(?![\w.])", "0x81"), (r"(?<![\w.])0xff(?![\w.])", "0xfe"),
+    (r"\bnil\b(?= *\{)", "nil"),
+]
+COND = re.compile(r"^(\s*(?:\} else )?if )(.*)( \{)$")
+CHARLIT = re.compile(r"'(\\.|[^'\\])'")
+STRLIT = re.compile(r'"((?:[^"\\]|\\.)+)"')
+
+def mutants2_of(path, text):
+    lines = text.split("\n")
+    in_block_comment = False
+    in_raw = False
+    for i, line in enumerate(lines):
+        s = line.strip()
+        if line.count("`") % 2 == 1:
+            in_raw = not in_raw
+            continue
+        if in_raw:
+            continue
+        if s.startswith("/*"):
+            in_block_comment = True
+        if in_block_comment:
+            if "*/" in s:
+                in_block_comment = False
+            continue
+        if not s or s.startswith("//") or s.startswith("import") or s.startswith("package") or s.startswith('"'):
+            continue
+        def emit(desc, new):
+            return (i, desc, "\n".join(lines[:i] + [new] + lines[i + 1:]))
+        m = COND.match(line)
+        if m:
+            cond = m.group(2)
+            init = ""
+            if ";" in cond and '"' not in cond and "'" not in cond:
+                init, cond = cond.rsplit(";", 1)
+                init += "; "
+                cond = cond.strip()
+            yield emit("negate condition", m.group(1) + init + "!(" + cond + ")" + m.group(3))
+        code = line.split("//")[0] if '"' not in line else line
+        for pat, rep in REPL2:
+            for mm in re.finditer(pat, code):
+                pre = code[:mm.start()]
+                if pre.count('"') % 2 == 1 or pre.count("'") % 2 == 1:
+                    continue
+                new = line[:mm.start()] + mm.expand(rep) + line[mm.end():]
+                if new != line:
+                    yield emit("%s -> %s" % (mm.group(0), mm.expand(rep)), new)
+        for mm in CHARLIT.finditer(code):
+            if code[:mm.start()].count('"') % 2 == 1:
+                continue
+            rep = "'~'" if mm.group(0) != "'~'" else "'!'"
+            yield emit("%s -> %s" % (mm.group(0), rep), line[:mm.start()] + rep + line[mm.end():])
+        for mm in STRLIT.finditer(code):
+            if code[:mm.start()].count("'") % 2 == 1:
+                continue
+            body = mm.group(1)
+            if len(body) > 40:
+                continue
+            rep = '"' + body + 'x"'
+            yield emit("%s -> %s" % (mm.group(0), rep), line[:mm.start()] + rep + line[mm.end():])
 
 def mutants_of(path, text):
     lines = text.split("\n")
@@ -67,7 +135,7 @@ def run(cmd, cwd, timeout):
 def main():
     out = sys.argv[1]
     os.makedirs(out, exist_ok=True)
-    files, maxn, stride, offset = FILES, 10**9, 1, 0
+    files, maxn, stride, offset, ops = FILES, 10**9, 1, 0, "1"
     args = sys.argv[2:]
     while args:
         a = args.pop(0)
@@ -75,6 +143,8 @@ def main():
         elif a == "--max": maxn = int(args.pop(0))
         elif a == "--stride": stride = int(args.pop(0))
         elif a == "--offset": offset = int(args.pop(0))
+        elif a == "--ops": ops = args.pop(0)
+        elif a == "--list": ops = ops + "L"
     scratch = tempfile.mkdtemp(prefix="verif-mutate-", dir="/tmp")
     try:
         subprocess.run(["cp", "-r", REPO + "/.", scratch], check=True)
@@ -82,7 +152,7 @@ def main():
         idx = done = 0
         for f in files:
             orig = open(os.path.join(REPO, f)).read()
-            for (ln, desc, mutated) in mutants_of(f, orig):
+            for (ln, desc, mutated) in (mutants2_of(f, orig) if ops.startswith("2") else mutants_of(f, orig)):
                 idx += 1
                 if (idx - 1) % stride != offset:
                     continue
@@ -90,6 +160,8 @@ def main():
                     break
                 done += 1
                 tag = "%s:%d %s" % (f, ln + 1, desc)
+                if ops.endswith("L"):
+                    print("MUTANT %s" % tag, flush=True); continue
                 open(os.path.join(scratch, f), "w").write(mutated)
                 try:
                     code, _ = run(["go", "build", "./..."], scratch, 120)
